@@ -34,19 +34,83 @@ Definition dest_code (s : fs) : Z :=
 Definition obs (s : fs) : val :=
   VL [VZ (dest_code s); VB (negb (no_tmp s))].
 
-(** case: (fail?, old present?, mode, k)   mode 0 = trace, 1 = kill before audited event k,
-    2 = OSError at audited event k *)
-Definition run_case (c : bool * bool * Z * Z) : val :=
-  let '(fail, has_old, mode, k) := c in
-  let p := if fail then prog_fail [] CHUNKS 1 else prog_ok commit_replace CHUNKS in
-  let s0 := init (if has_old then Some OLD else None) in
+(** ---- exception classes / handler clauses as numbers ---- *)
+Definition exc_of (z : Z) : exc :=
+  if z =? 0 then EOS else if z =? 1 then EValue else if z =? 2 then EAttr else if z =? 3 then EOther else EBase.
+Definition hbase_of (z : Z) : hbase :=
+  if z =? 0 then BBaseException else if z =? 1 then BException else if z =? 2 then BOSError
+  else if z =? 3 then BValueError else if z =? 4 then BAttributeError else BOtherName.
+Definition handlers_of (h : list Z * list Z) : handlers :=
+  {| h_enter := map hbase_of (fst h); h_exit := map hbase_of (snd h) |}.
+
+(** ---- zip programs ---- *)
+Definition zaudited (o : zop) : bool := match o with ZWrite _ | ZClose => false | _ => true end.
+
+Fixpoint zaudited_index (p : list zop) (k : nat) : nat :=
+  match p with
+  | [] => 0
+  | o :: t => if zaudited o then match k with O => O | S k' => S (zaudited_index t k') end
+              else S (zaudited_index t k)
+  end.
+
+Definition zop_code (nested : bool) (o : zop) : Z :=
+  match o with
+  | ZMkOuter => 1 | ZMkInner => 11 | ZOpenFile => if nested then 12 else 2
+  | ZWrite _ => 3 | ZClose => 4
+  | ZTryOpen Staged => 13 | ZCreate Staged => 14 | ZTryOpen Dest => 23 | ZCreate Dest => 24
+  | ZAdd _ => 15 | ZRmInner => 17 | ZReplace => 6 | ZRmOuter => 7
+  end.
+
+Definition arch_eqb (a b : option arch) : bool :=
+  match a, b with
+  | None, None => true
+  | Some Garbage, Some Garbage => true
+  | Some (Members x), Some (Members y) => if list_eq_dec (list_eq_dec Z.eq_dec) x y then true else false
+  | _, _ => false
+  end.
+
+Definition zobs (old new : option arch) (s : zfs) : val :=
+  VL [VZ (match zdest s with
+          | None => 0
+          | d => if arch_eqb d old then 1 else if arch_eqb d new then 2 else 3
+          end);
+      VB (negb (zno_tmp s))].
+
+(** case: (shape, old present?, mode, k, exception class, (enter clause, exit clause))
+    shape 0 = plain target, write succeeds; 1 = the body raises after the first chunk;
+          4 = the body raises before the first chunk; 5 = opening the temporary file raises (class e);
+          2 = `.zip` destination (temporary archive + replace); 3 = archive appended to in place
+    mode  0 = trace, 1 = kill before audited event k, 2 = exception of class e at audited event k *)
+Definition run_case (c : Z * bool * Z * Z * Z * (list Z * list Z)) : val :=
+  let '(shape, has_old, mode, k, e, h) := c in
   let kk := Z.to_nat k in
-  if mode =? 0 then
-    VL [vlistZ (map op_code (filter audited p)); obs (run p s0)]
-  else if mode =? 1 then
-    obs (run_prefix (audited_index p kk) p s0)
+  if (shape =? 2) || (shape =? 3) then
+    let nested := shape =? 2 in
+    let old := if has_old then Some (Members [OLD]) else None in
+    let p := if nested then zprog_staged CHUNKS else zprog_append has_old CHUNKS in
+    let new := Some (Members ((if nested then [] else old_members old) ++ [concat CHUNKS])) in
+    if mode =? 0 then
+      VL [vlistZ (map (zop_code nested) (filter zaudited p)); zobs old new (zrun p (zinit old))]
+    else if mode =? 1 then
+      zobs old new (zrun (firstn (zaudited_index p kk) p) (zinit old))
+    else VN
   else
-    obs (run_fault (audited_index p kk) p s0).
+    let p := if shape =? 1 then prog_fail [] CHUNKS 1
+             else if shape =? 4 then prog_fail [] CHUNKS 0
+             else prog_ok commit_replace CHUNKS in
+    let s0 := init (if has_old then Some OLD else None) in
+    let H := handlers_of h in
+    if shape =? 5 then
+      VL [vlistZ []; obs (run_fault_cls H (exc_of e) 1 p s0)]
+    else if mode =? 0 then
+      VL [vlistZ (map op_code (filter audited p)); obs (run p s0)]
+    else if mode =? 1 then
+      obs (run_prefix (audited_index p kk) p s0)
+    else
+      obs (run_fault_cls H (exc_of e) (audited_index p kk) p s0).
+
+(** do the except-clauses read from the source cover every handled class? *)
+Definition run_covers (h : list Z * list Z) : val := VB (covers_handled (handlers_of h)).
 
 (** resume: (inputs, ids already completed, k) -> (processed on resume, final ids, final ids of the uninterrupted run) *)
 Definition run_resume (c : list Z * list Z * Z) : val :=
@@ -57,3 +121,16 @@ Definition run_resume (c : list Z * list Z * Z) : val :=
   VL [vlistZ (processed inputs st1);
       vlistZ (map fst (apply_to f inputs st1));
       vlistZ (map fst (apply_to f inputs st0))].
+
+(** resume with failing inputs: (inputs, failing inputs, k) ->
+    (processed on resume, completed ids, not-completed ids, the same two for the uninterrupted run) *)
+Definition run_resume_nc (c : list Z * list Z * Z) : val :=
+  let '(inputs, bad, k) := c in
+  let g := fun i : Z => (i, negb (existsb (Z.eqb i) bad)) in
+  let st1 := interrupted_nc g (Z.to_nat k) inputs [] in
+  let fin := apply_nc g inputs st1 in
+  let ref := apply_nc g inputs [] in
+  let ids (b : bool) (st : list rec) := map fst (filter (fun p => Bool.eqb (snd (snd p)) b) st) in
+  VL [vlistZ (processed_nc inputs st1);
+      vlistZ (ids true fin); vlistZ (ids false fin);
+      vlistZ (ids true ref); vlistZ (ids false ref)].
